@@ -4,7 +4,7 @@
 
 #include <etl/_concepts/integral.hpp>
 #include <etl/_string_view/basic_string_view.hpp>
-#include <etl/_strings/to_integer.hpp>
+#include <etl/_strings/strto_integer.hpp>
 
 namespace etl {
 
@@ -13,7 +13,7 @@ namespace detail {
 template <etl::integral Int>
 [[nodiscard]] constexpr auto sto_impl(etl::string_view str, etl::size_t* pos, int base) -> Int
 {
-    auto const res = strings::to_integer<Int>(str, static_cast<Int>(base));
+    auto const res = strings::detail::strto_integer<Int>(str, base);
     if (pos != nullptr) {
         *pos = static_cast<etl::size_t>(etl::distance(str.data(), res.end));
     }
